@@ -26,7 +26,7 @@ RULE = ("programs: 46 fixed queries (every construct with per-input state: , || 
         "sequences, one DWARF value shared by all executions, raw and cooked).  Exhaustive: all sequences over {pull A, pull B, "
         "destroy A, destroy B} up to length 5 (quick) / 7 (thorough) for each program, A and B being two executions of one "
         "compiled query (same or different input, or of two compilations of the text).  Random: histories of 10-40 operations "
-        "over 3 live result sets, 2 query objects per text, recompilation.  Mixed: sequences of 3-12 *different* queries (core, "
+        "over 3 live result sets, 2 query objects per text, recompilation.  Mixed: sequences of 3-12 *different* queries (or, in 40 % of them, of two queries compiled once and executed again and again on alternating inputs and files) (core, "
         "DWARF words incl. high/low/address/@AT_const_value/abbrev/symbol, on sample files, on an object compiled here and on pairs of generated twin files -- byte-identical .debug_info, every DIE at the same offset, but base types signed <-> unsigned and enumerators sdata <-> udata through .debug_abbrev) run one "
         "after the other in one process, each compared with its own fresh-process run.  Non-trivial: two result sets of one query were pulled "
         "alternately at least twice, or a result set was abandoned mid-way and the query executed again.  Distinct by history.")
@@ -360,7 +360,7 @@ def work_random(task):
 
 MIX_DW = DW_PROGRAMS + [
     "entry high", "entry low", "entry address", "entry @AT_const_value", "entry @AT_decl_file", "entry (@AT_type)*", "unit",
-    "entry @AT_location elem value", "abbrev entry", "abbrev entry attribute", "symbol label", "symbol address", "symbol name",
+    "entry @AT_location elem value", "abbrev entry", "abbrev entry attribute", "symbol label", "symbol address", "symbol name", "symbol binding", "symbol [label, binding, visibility] \"%s\"",
     "entry attribute (label, form)", "entry ?AT_declaration", "entry name", "entry @AT_byte_size", "entry @AT_upper_bound",
     "entry ?TAG_subprogram @AT_high_pc", "entry @AT_data_member_location", "entry @AT_language", "entry @AT_encoding",
     "[entry @AT_const_value] [entry high]", "entry root", "entry unit", "entry abbrev offset",
@@ -399,6 +399,8 @@ def mix_files():
     import subprocess
     from ..drv import BUILD
     out = [os.path.join("/repo/tests", fn) for fn in FILES]
+    # symbol tables of other machines (their constants live in domains of their own, chosen per file)
+    out += [p for p in (os.path.join("/repo/tests", fn) for fn in ("y.o", "y-mips.o")) if os.path.exists(p)]
     d = os.path.join(BUILD, "run")
     os.makedirs(d, exist_ok=True)
     src, obj = os.path.join(d, "c12-anon.cc"), os.path.join(d, "c12-anon.o")
@@ -525,11 +527,14 @@ def mix_ref(cache, prog, path, raw, core_inp):
     return seq
 
 
-def run_mix(steps, cache):
+def run_mix(steps, cache, reuse=False):
     """steps: [(prog, path, raw, core_inp)].  All in one driver process, one file handle per (path, raw),
-    every query compiled afresh, each result set drained.  Returns (index, reason) or None."""
+    every query compiled afresh -- or, with REUSE, compiled once per text and executed again on whatever input
+    the later steps name (state kept in the operator objects of a compiled query must not outlive an execution,
+    also when the next input is another file) -- each result set drained.  Returns (index, reason) or None."""
     d = Driver(timeout=120)
     toks = {}
+    compiled = {}
     try:
         for k, (prog, path, raw, core_inp) in enumerate(steps):
             ref = mix_ref(cache, prog, path, raw, core_inp)
@@ -538,7 +543,14 @@ def run_mix(steps, cache):
             if path is not None and (path, raw) not in toks:
                 toks[(path, raw)] = "V%d" % d.open(path, raw)
             tok = core_inp if path is None else toks[(path, raw)]
-            r = d.run(prog, tok, limit=300, steps=20000000)
+            if reuse:
+                if prog not in compiled:
+                    compiled[prog] = d.parse(prog)
+                if "q" not in compiled[prog]:
+                    return k, "compiles in a fresh process, here: %r" % compiled[prog].get("cerror")
+                r = d.req("runq %d 300 20000000 %s" % (compiled[prog]["q"], tok))
+            else:
+                r = d.run(prog, tok, limit=300, steps=20000000)
             if "cerror" in r:
                 return k, "compiles in a fresh process, here: %r" % r["cerror"]
             got = {"res": [canon(x) for x in r["res"]], "end": bool(r.get("end")), "error": r.get("error"),
@@ -581,10 +593,20 @@ def work_mix(task):
                 steps.append((p, None, False, rnd.choice(ins) if ins else ""))
         if rnd.random() < 0.5:
             steps += [rnd.choice(steps) for _ in range(rnd.randint(1, 3))]      # the same thing again later
+        reuse = rnd.random() < 0.4
+        if reuse:
+            # the same few queries again and again, on alternating inputs
+            few = rnd.sample(steps, min(len(steps), 2))
+            steps = [(rnd.choice(few)[0],) + rnd.choice(steps)[1:] for _ in range(rnd.randint(4, 10))]
+            steps = [s_ for s_ in steps if (s_[1] is None) == (s_[0] in MIX_CORE)]
+            if not steps:
+                continue
         try:
-            bad = run_mix(steps, cache)
-            ev.case(key=("mix", repr(steps)), nontrivial=len(set(s_[0] for s_ in steps)) >= 3)
+            bad = run_mix(steps, cache, reuse)
+            ev.case(key=("mix", reuse, repr(steps)), nontrivial=len(set(s_[0] for s_ in steps)) >= 3 or reuse)
             ev.label("mixed-sequence")
+            if reuse:
+                ev.label("mixed-sequence:one-compiled-query-many-inputs")
             if bad:
                 # shrink: drop steps while the same step still fails
                 k, why = bad
@@ -595,11 +617,11 @@ def work_mix(task):
                     changed = False
                     for j in range(len(cur) - 1):
                         cand = cur[:j] + cur[j + 1:]
-                        b2 = run_mix(cand, cache)
+                        b2 = run_mix(cand, cache, reuse)
                         if b2 and cand[b2[0]] == culprit:
                             cur, why, changed = cand[:b2[0] + 1], b2[1], True
                             break
-                ev.violations.append({"property": PID, "kind": "mix", "steps": cur, "reason": "%s  [query: %s on %s]" % (why, culprit[0], culprit[1] or repr(culprit[3])),
+                ev.violations.append({"property": PID, "kind": "mix", "steps": cur, "reuse_compiled": reuse, "reason": "%s  [query: %s on %s]" % (why, culprit[0], culprit[1] or repr(culprit[3])),
                                       "signature": "C12:mix:%s:%s" % (culprit[0], why[:60])})
             elif rnd.random() < 0.02:
                 ev.sample({"sequence": [(s_[0], os.path.basename(s_[1]) if s_[1] else s_[3]) for s_ in steps]})
@@ -635,6 +657,7 @@ def main(tier, seed):
                   health={"programs enumerated": ev.labels.get("exhaustive-program", 0) >= 30,
                           "random histories": ev.labels.get("random-history", 0) > 100,
                           "mixed sequences": ev.labels.get("mixed-sequence", 0) > 100,
+                          "mixed sequences with one compiled query executed on several inputs": ev.labels.get("mixed-sequence:one-compiled-query-many-inputs", 0) > 100,
                           "mixed sequences over twin files (same offsets, different meaning)": ev.labels.get("mixed-sequence:twin-files", 0) > 100})
 
 
@@ -642,7 +665,8 @@ def replay(path):
     rec = json.load(open(path))
     if rec.get("kind") == "mix":
         mix_files()
-        bad = run_mix([tuple(x) for x in rec["steps"]], {})
+        twin_files()
+        bad = run_mix([tuple(x) for x in rec["steps"]], {}, bool(rec.get("reuse_compiled")))
         print(bad)
         return 1 if bad else 0
     R = Ref()
